@@ -41,6 +41,7 @@ import (
 )
 
 const c09NS = "n"
+const c09NS2 = "m" // second namespace: the same object names and relations exist in both
 
 var (
 	c09Objs  = []string{"o1", "o2", "o3", "o4"}
@@ -385,7 +386,7 @@ func c09NewWorld(t testing.TB) *c09World {
 	dsn := apih.NewDSN()
 	for _, d := range []int{5, 3, c09Unbound} {
 		w.byDepth[d] = apih.NewServer(t, apih.Options{
-			Namespaces: []*namespace.Namespace{{Name: c09NS}},
+			Namespaces: []*namespace.Namespace{{Name: c09NS}, {Name: c09NS2}},
 			Config:     map[string]any{"limit.max_read_depth": d},
 			DSN:        dsn,
 		})
@@ -1113,7 +1114,16 @@ func TestC09(t *testing.T) {
 			fmt.Printf("INFRA-ERROR replay: %v\n", err)
 			t.FailNow()
 		}
-		fs := replayOne(world(0), c)
+		var fs []c09Finding
+		if strings.HasPrefix(c.Family, "reconfigure:") {
+			// the run-time reconfiguration family is small and deterministic: the replay re-runs it
+			c09Reconfigure(t, r)
+			for _, cd := range r.cands {
+				fs = append(fs, cd.F)
+			}
+		} else {
+			fs = replayOne(world(0), c)
+		}
 		for _, f := range fs {
 			run.Violation(f.Sig, f.What, rp)
 		}
@@ -1163,6 +1173,29 @@ func TestC09(t *testing.T) {
 	})
 	fmt.Printf("[c09] fan-out family: %d cases in %.1fs\n", doneFans.Load(), time.Since(t0).Seconds())
 
+	// two-namespace family: nodes n:o1#r1 (root), m:o1#r1, n:o2#r1, m:o2#r1 - a subject set is identified by
+	// namespace, object AND relation; every root-connected set of <= 3 tuples over these nodes and two users,
+	// in listing order and reversed
+	two := c09TwoNSCases()
+	var doneTwo atomic.Int64
+	t0 = time.Now()
+	axParallel(len(two), world, func(w *c09World, i int) {
+		if time.Now().After(deadline) {
+			timedOut.Store(true)
+			return
+		}
+		f := two[i]
+		w.load(f.Tuples)
+		w.order(f.Tuples)
+		r.runState(w, "two-namespaces:"+f.Name, f.Tuples, c09Root, []c09Depth{{0, 5}, {2, 5}, {0, c09Unbound}}, c09Transports, f.Checks, false)
+		doneTwo.Add(1)
+	})
+	fmt.Printf("[c09] two-namespace family: %d cases in %.1fs\n", doneTwo.Load(), time.Since(t0).Seconds())
+
+	// run-time reconfiguration: limit.max_read_depth changes while ONE registry keeps serving; every expansion
+	// after a change must follow the limit in force when it is issued
+	reconf := c09Reconfigure(t, r)
+
 	t0 = time.Now()
 	axParallel(len(all), world, func(w *c09World, i int) {
 		if time.Now().After(deadline) {
@@ -1204,7 +1237,8 @@ func TestC09(t *testing.T) {
 			continue
 		}
 		stable := true
-		for rep := 0; rep < 2 && stable; rep++ {
+		// (a reconfiguration case is a sequence on its own registry, not a stored state: it is not re-run here)
+		for rep := 0; rep < 2 && stable && !strings.HasPrefix(cd.Case.Family, "reconfigure:"); rep++ {
 			stable = false
 			for _, f := range replayOne(world(0), cd.Case) {
 				stable = stable || f.Sig == cd.F.Sig
@@ -1256,6 +1290,8 @@ func TestC09(t *testing.T) {
 		"statement_faults_injected":  int(r.faults.Load()),
 		"distinct_nontrivial":        int(r.nontriv.Load()),
 		"rule":                       "evaluations = expand calls (stored state x depth combination x path); a stored state = (tuple multiset up to renaming, sibling row order) and is non-trivial iff some subject is at distance >= 2 from the requested set (a nested set must be expanded); distinct_nontrivial counts distinct non-trivial stored states",
+		"two_namespace_cases":        int(doneTwo.Load()),
+		"reconfiguration_expands":    reconf,
 		"exhaustive":                 !timedOut.Load() && unstable == 0,
 		"max_tuples":                 maxTuples,
 		"multisets_per_size":         perSize,
@@ -1276,4 +1312,157 @@ func TestC09(t *testing.T) {
 		"unstable_candidates":        unstable,
 		"symmetry":                   "objects o2..o4 and users u1/u2 renamed (12 images), canonical representative = least sorted index list",
 	})
+}
+
+// ---- two namespaces --------------------------------------------------------------------------------------
+
+func c09TwoNSCases() []c09Fan {
+	type node struct{ ns, obj string }
+	nodes := []node{{c09NS, "o1"}, {c09NS2, "o1"}, {c09NS, "o2"}, {c09NS2, "o2"}}
+	var univ []*ketoapi.RelationTuple
+	for _, src := range nodes {
+		for _, u := range []string{"u1", "u2"} {
+			univ = append(univ, axID(src.ns, src.obj, "r1", u))
+		}
+		for _, dst := range nodes {
+			univ = append(univ, axSet(src.ns, src.obj, "r1", dst.ns, dst.obj, "r1"))
+		}
+	}
+	connected := func(ts []*ketoapi.RelationTuple) bool {
+		reach := map[string]bool{c09NS + ":o1": true}
+		for changed := true; changed; {
+			changed = false
+			for _, t := range ts {
+				if reach[t.Namespace+":"+t.Object] && t.SubjectSet != nil && !reach[t.SubjectSet.Namespace+":"+t.SubjectSet.Object] {
+					reach[t.SubjectSet.Namespace+":"+t.SubjectSet.Object] = true
+					changed = true
+				}
+			}
+		}
+		for _, t := range ts {
+			if !reach[t.Namespace+":"+t.Object] {
+				return false
+			}
+		}
+		return true
+	}
+	var out []c09Fan
+	add := func(ix ...int) {
+		var ts []*ketoapi.RelationTuple
+		usesM := false
+		for _, i := range ix {
+			ts = append(ts, univ[i])
+			usesM = usesM || univ[i].Namespace == c09NS2 || (univ[i].SubjectSet != nil && univ[i].SubjectSet.Namespace == c09NS2)
+		}
+		if !usesM || !connected(ts) {
+			return // single-namespace shapes are the small family's
+		}
+		name := fmt.Sprint(ix)
+		out = append(out, c09Fan{name, ts, []string{"u1", "u2"}})
+		if len(ts) > 1 {
+			rev := make([]*ketoapi.RelationTuple, len(ts))
+			for i := range ts {
+				rev[len(ts)-1-i] = ts[i]
+			}
+			out = append(out, c09Fan{name + "/reversed", rev, []string{"u1", "u2"}})
+		}
+	}
+	n := len(univ)
+	for a := 0; a < n; a++ {
+		add(a)
+		for b := a + 1; b < n; b++ {
+			add(a, b)
+			for c := b + 1; c < n; c++ {
+				add(a, b, c)
+			}
+		}
+	}
+	return out
+}
+
+// ---- run-time reconfiguration of limit.max_read_depth -------------------------------------------------------
+
+func c09Reconfigure(t testing.TB, r *c09Run) int {
+	s := apih.NewServer(t, apih.Options{Namespaces: []*namespace.Namespace{{Name: c09NS}}, Config: map[string]any{"limit.max_read_depth": 5}})
+	// a chain of 8 levels below the root: root -> c1 -> ... -> c8 -> user
+	var ts []*ketoapi.RelationTuple
+	prev := "o1"
+	for i := 1; i <= 8; i++ {
+		next := fmt.Sprintf("c%d", i)
+		ts = append(ts, axSet(c09NS, prev, "r1", c09NS, next, "r1"))
+		prev = next
+	}
+	ts = append(ts, axID(c09NS, prev, "r1", "deep"))
+	if _, err := s.Client().GTransact(c05Deltas(ts, nil, -1, "")); err != nil {
+		panic(fmt.Sprintf("c09 reconfigure: load: %v", err))
+	}
+	m := c09NewModel(ts, c09Root)
+	names := map[string]string{}
+	w := &c09World{s: s}
+	n := 0
+	reported := false
+	for _, seq := range [][]int{{5, 2}, {2, 5}, {5, 20}, {20, 3}, {3, 20, 2}, {5, 2, 5}, {2, 20, 5}} {
+		for step, g := range seq {
+			if err := s.Reg.Config(s.Ctx).Set("limit.max_read_depth", g); err != nil {
+				panic(fmt.Sprintf("c09 reconfigure: set: %v", err))
+			}
+			if got := s.Reg.Config(s.Ctx).MaxReadDepth(); got != g {
+				panic(fmt.Sprintf("c09 reconfigure: limit is %d after setting %d", got, g))
+			}
+			for _, req := range []int{0, 1, 4, 30} {
+				for _, tr := range c09Transports {
+					var res c09Result
+					switch tr {
+					case "engine":
+						sub, err := s.Reg.ReadOnlyMapper().FromSubjectSet(s.Ctx, c09Root)
+						if err != nil {
+							panic(err)
+						}
+						tree, err := s.Reg.ExpandEngine().BuildTree(s.Ctx, sub, req)
+						if err != nil {
+							res.Err = err.Error()
+						} else if tree == nil {
+							res.Absent = true
+						} else {
+							if len(names) == 0 {
+								names = w.names()
+							}
+							res.Tree = c09FromEngine(tree, names)
+						}
+					case "rest":
+						resp := s.Client().Expand(c09Root, apih.Itoa(req))
+						if resp.Status == 200 && !c09IsNotFoundBody(resp.JSON) {
+							res.Tree = c09FromJSON(resp.JSON)
+						} else if resp.Status == 200 || resp.Status == 404 {
+							res.Absent = true
+						} else {
+							res.Err = c05Short(resp.String())
+						}
+					case "grpc":
+						resp, err := s.Client().GExpand(apih.ProtoSubject(nil, c09Root), int32(req))
+						if err != nil {
+							res.Err = err.Error()
+						} else if resp.Tree == nil {
+							res.Absent = true
+						} else {
+							res.Tree = c09FromProto(resp.Tree)
+						}
+					}
+					n++
+					d := c09Depth{Req: req, Global: g}
+					fs, _ := c09Judge(m, res, d.eff(), tr)
+					for _, f := range fs {
+						if reported {
+							break
+						}
+						reported = true
+						r.mu.Lock()
+						r.cands = append(r.cands, c09Cand{Case: c09Case{fmt.Sprintf("reconfigure:%v:step%d", seq, step), ts, c09Root, d, tr, nil}, F: c09Finding{"after-run-time-change-of-the-limit:" + f.Sig, fmt.Sprintf("limit.max_read_depth set %v at run time on one registry; after step %d (limit %d), request max-depth %d: %s", seq, step+1, g, req, f.What)}, Tree: res.Tree.String()})
+						r.mu.Unlock()
+					}
+				}
+			}
+		}
+	}
+	return n
 }
